@@ -90,52 +90,55 @@ def tvh_json(args, **kw):
 # ---------------------------------------------------------------------------------------------
 
 def _worker(exe, sub_args, cases, results, idx, hang_s, as_gb, stack_kb):
-    """Feed `cases` (list of dict with 'id') to one worker; on death attribute to case in flight."""
+    """Feed `cases` (list of dict with 'id') to one worker; on death attribute to the case in flight.
+    Input and output go through files; the parent only watches output growth (hang detection)."""
     os.makedirs(CACHE, exist_ok=True)
     pos = 0
     while pos < len(cases):
-        fn = os.path.join(CACHE, "w%d_%d.jsonl" % (os.getpid(), idx))
+        fn = os.path.join(CACHE, "w%d_%d.in" % (os.getpid(), idx))
+        fo = os.path.join(CACHE, "w%d_%d.out" % (os.getpid(), idx))
         with open(fn, "w") as f:
-            for c in cases[pos:]:
-                f.write(json.dumps(c) + "\n")
+            f.write("".join(json.dumps(c) + "\n" for c in cases[pos:]))
         fin = open(fn, "r")
-        p = subprocess.Popen([exe] + sub_args, stdin=fin, stdout=subprocess.PIPE, stderr=subprocess.DEVNULL,
+        fout = open(fo, "wb")
+        p = subprocess.Popen([exe] + sub_args, stdin=fin, stdout=fout, stderr=subprocess.DEVNULL,
                              preexec_fn=limits(stack_kb=stack_kb, as_gb=as_gb))
         fin.close()
-        inflight = None
-        buf = b""
+        fout.close()
         dead = None
-        fd = p.stdout.fileno()
+        last = -1
         while True:
-            r, _, _ = select.select([fd], [], [], hang_s)
-            if not r:
-                p.kill()
-                p.wait()
-                dead = "hang"
-                break
-            chunk = os.read(fd, 1 << 16)
-            if not chunk:
-                p.wait()
+            try:
+                p.wait(timeout=hang_s)
                 if p.returncode != 0:
                     dead = "death:%d" % p.returncode
                 break
-            buf += chunk
-            while b"\n" in buf:
-                line, buf = buf.split(b"\n", 1)
+            except subprocess.TimeoutExpired:
+                sz = os.path.getsize(fo)
+                if sz == last:
+                    p.kill()
+                    p.wait()
+                    dead = "hang"
+                    break
+                last = sz
+        inflight = None
+        start = pos
+        with open(fo, "rb") as f:
+            for line in f:
                 if line.startswith(b"BEGIN "):
                     inflight = pos
                     continue
-                if not line.strip():
+                if not line.strip() or not line.endswith(b"\n"):
                     continue
                 try:
                     o = json.loads(line)
                 except Exception:
                     continue
-                results[cases[pos]["id"]] = o
-                pos += 1
-                inflight = None
+                if pos < len(cases):
+                    results[cases[pos]["id"]] = o
+                    pos += 1
+                    inflight = None
         if dead is not None:
-            # attribute to the case in flight (or the next case if BEGIN was not even printed)
             k = inflight if inflight is not None else pos
             if k < len(cases):
                 results[cases[k]["id"]] = {"id": cases[k]["id"], "status": dead, "value": "", "err": "", "log": [],
@@ -144,12 +147,12 @@ def _worker(exe, sub_args, cases, results, idx, hang_s, as_gb, stack_kb):
             else:
                 break
         elif pos < len(cases):
-            # clean exit without consuming everything: machinery problem
-            raise MachineryError("worker stopped early at case %d/%d" % (pos, len(cases)))
-        try:
-            os.unlink(fn)
-        except OSError:
-            pass
+            raise MachineryError("worker stopped early at case %d/%d (started at %d)" % (pos, len(cases), start))
+        for x in (fn, fo):
+            try:
+                os.unlink(x)
+            except OSError:
+                pass
 
 
 def run_batch(cases, sub_args=("run",), profile="chk", nworkers=None, hang_s=20, as_gb=4, stack_kb=8192):
